@@ -187,7 +187,13 @@ def run_case(ck, desc):
     cols = {k: np.asarray(tab[k], dtype=float) for k in tables.MP_COLS}
     Sw = desc["Sw"]
     params = RelPermParams(*desc["relperm"])
-    df_kr = None if desc.get("mobile_water") else relative_permeabilities_twophase(params, Sw)
+    # (the rel-perm table may have been made for ANOTHER connate water saturation than the one the
+    # reservoir is given - the helper's default table, Sw = 0.1, used for a reservoir at 0.2: the
+    # look-ups are keyed on the table's oil-saturation column as documented)
+    Sw_kr = Sw if int(desc["phi"] * 1e4) % 4 else max(0.0, Sw - 0.07)
+    df_kr = None if desc.get("mobile_water") else relative_permeabilities_twophase(params, Sw_kr)
+    if Sw_kr != Sw and not desc.get("mobile_water"):
+        ck.count("rel_perm_tables_made_for_another_water_saturation")
     if desc.get("mobile_water"):
         # a rel-perm table with MOBILE water (Sw above its residual), built from the library's own
         # Brooks-Corey function: the water term of the documented mobility is then non-zero
